@@ -341,6 +341,9 @@ func (prop) Generate(rng *rand.Rand, tier string) []corr.Case {
 		}
 		cases = append(cases, corr.Case{Ops: ops, Tag: "schema"})
 	}
+	// entry points (NewBlock / NewBlockHeader / NewTransaction / NewBlockAsset) on envelopes with one
+	// non-canonical element: entry.go
+	cases = append(cases, genEntryCases(rng, tier)...)
 	return cases
 }
 
@@ -529,6 +532,11 @@ func (prop) RunImpl(c corr.Case) ([]string, []corr.Fail) {
 				fails = append(fails, corr.Fail{Sig: "decode-panics", Detail: op, Op: i})
 			}
 		default:
+			if r, fs, ok := runEntry(i, op, w); ok {
+				out = append(out, r)
+				fails = append(fails, fs...)
+				break
+			}
 			out = append(out, "bad-op")
 		}
 	}
